@@ -126,6 +126,17 @@ def frac_of(op):
     return op["frac"] / 4.0
 
 
+def flag(op, v):
+    """the three flags in the form the op asks for: Python bool, numpy.bool_, or 1 / 0 (all have the same truth value)"""
+    form = op.get("flag_form", "bool")
+    if form == "numpy":
+        import numpy
+        return numpy.bool_(v)
+    if form == "int":
+        return 1 if v else 0
+    return bool(v)
+
+
 def drop(kw, op):
     """optional arguments the op says to leave out (the generator only lists arguments whose value is the
     documented default, so leaving them out must change nothing)"""
@@ -175,17 +186,22 @@ def apply(cell, op, doc=None):
         x = len(segs)
         kw = dict(seg_id=op["seg_id"], name=op["name"],
                   parent=segs[op["parent"]] if op["parent"] is not None else None,
-                  fraction_along=frac_of(op), group_id=op["group"], use_convention=op["conv"],
-                  seg_type=op["ty"], reorder_segment_groups=op["reorder"],
-                  optimise_segment_groups=op["optimise"])
-        cell.add_segment([x, 0, 0, 1] if op["prox"] else None, [x + 1, 0, 0, 1], **drop(kw, op))
+                  fraction_along=frac_of(op), group_id=op["group"], use_convention=flag(op, op["conv"]),
+                  seg_type=op["ty"], reorder_segment_groups=flag(op, op["reorder"]),
+                  optimise_segment_groups=flag(op, op["optimise"]))
+        if op.get("pt"):
+            # coordinates / diameters of extreme magnitude (the model has no geometry: these cells are outside the tree tie)
+            px, pd = float(op["pt"]["x"]), float(op["pt"]["d"])
+            cell.add_segment([px, 0, 0, pd] if op["prox"] else None, [x + 1, px, -px, pd], **drop(kw, op))
+        else:
+            cell.add_segment([x, 0, 0, 1] if op["prox"] else None, [x + 1, 0, 0, 1], **drop(kw, op))
     elif k == "unbranched":
         x = len(segs)
         pts = [[x + j, 0, 0, 1] for j in range(op["npoints"])]
         kw = dict(parent=segs[op["parent"]] if op["parent"] is not None else None,
                   fraction_along=frac_of(op), group_id=op["group"],
-                  use_convention=op["conv"], seg_type=op["ty"],
-                  reorder_segment_groups=op["reorder"], optimise_segment_groups=op["optimise"])
+                  use_convention=flag(op, op["conv"]), seg_type=op["ty"],
+                  reorder_segment_groups=flag(op, op["reorder"]), optimise_segment_groups=flag(op, op["optimise"]))
         cell.add_unbranched_segments(pts, **drop(kw, op))
     elif k == "group":
         cell.add_segment_group(op["id"], **drop(dict(neuro_lex_id=op["nlex"]), op))
